@@ -151,13 +151,24 @@ def mon_c17(hs, prev, op, ok, trace, cur, known):
             if zero:
                 return ('violation', 'dispatcher emitted a zero-coin transfer that executed')
             std, bd = pcfg[3], pcfg[4]
+            # what may legitimately arrive AFTER the dispatch: the distribution module pays the pending
+            # rewards of a validator to the withdraw address (the dispatcher) when BondRewards delegates
+            # to it, unless they were withdrawn earlier in the transaction
+            withdrawn = set(u.split(' ')[3] for u in trace[:i] if u.startswith('m withdraw hub '))
+            delegated = set(u.split(' ')[3] for u in trace[i + 1:] if u.startswith('m delegate hub '))
+            wd = {x[0]: x[1] for x in prev.all('wdaddr')}
             for d in (std, bd):
+                late = 0
+                if wd.get('hub') == 'disp':
+                    for x in prev.all('pend'):
+                        if x[0] == 'hub' and x[2] == d and x[1] in delegated and x[1] not in withdrawn:
+                            late += int(x[3])
                 after = 0
                 for b in cur.all('bank'):
                     if b[0] == 'disp' and b[1] == d:
                         after = int(b[2])
-                if after != 0:
-                    return ('violation', 'dispatcher still holds %d %s after DispatchRewards' % (after, d))
+                if after != late:
+                    return ('violation', 'dispatcher holds %d %s after DispatchRewards (%d arrived afterwards from the distribution module)' % (after, d, late))
     return None
 
 
